@@ -142,6 +142,9 @@ where
 
     pub fn exec(&mut self, op: &Op) -> Result<(), Bad> {
         let a = op.a;
+        if self.slots[self.cur].model.len() > self.case.h_or("size_cap", 3000) as usize && matches!(op.code, ops::FILL_TO_CAPACITY | ops::RESERVE | ops::INSERT_RANGE | ops::EXTEND) {
+            return Ok(());
+        }
         let cur = self.cur;
         match op.code {
             ops::INSERT => {
@@ -231,7 +234,7 @@ where
                         if p.downcast_ref::<Injected>().is_some() {
                             std::panic::resume_unwind(p);
                         }
-                        std::mem::forget(p);
+                        drop(p);
                         world::clear_panic_messages();
                         if !(lie && present.is_none()) {
                             bad!("C07", "get_or_insert_with-spurious-panic", "get_or_insert_with({k}) panicked (lie={lie}, present={})", present.is_some());
@@ -804,7 +807,7 @@ where
         match r {
             Err(payload) => {
                 let msg = world::last_panic_message().unwrap_or_else(|| "<no message>".into());
-                std::mem::forget(payload);
+                drop(payload);
                 return Err(Violation { property: "C02", kind: "unexpected-panic".into(), step, detail: format!("operation panicked: {msg}") });
             }
             Ok(Err(b)) => return Err(self.to_violation(step, b)),
@@ -826,7 +829,7 @@ where
         let slots = std::mem::take(&mut self.slots);
         let r = catch_unwind(AssertUnwindSafe(move || drop(slots)));
         if let Err(p) = r {
-            std::mem::forget(p);
+            drop(p);
             let msg = world::last_panic_message().unwrap_or_default();
             return (out, Some(Violation { property: "C02", kind: "unexpected-panic".into(), step, detail: format!("dropping the sets panicked: {msg}") }));
         }
